@@ -157,7 +157,10 @@ def _case_worker_inner(case):
             if case.get("sym"):
                 meta["sym"] = [json.loads(json.dumps(x)) for x in H._SYM]
             real.append((H.sort_ids(r), dump_real(sd), meta))
+        if case.get("skiprule_model") and not nomodel:
+            m.add("skiprule")            # SkipRule.query_order on the model's final diagram (ideal engine, id order)
         out = m.run()
+        skiprule_model = out[-1] if (case.get("skiprule_model") and not nomodel) else None
         # reference (always with an unlimited configuration)
         m2 = Model(n, tabs)
         m2.add("init"); m2.add("op bfs - - -"); m2.add("mintraps " + "*" * n); m2.add("percolate " + "*" * n)
@@ -257,7 +260,7 @@ def _case_worker_inner(case):
             if idx and not nomodel and tape_verdict is not None:
                 steps[-1]["tape_verdict"] = tape_verdict
         return {"case": case, "steps": steps, "ref_full": ref_out[1].split(" ", 1)[1], "mintraps": parse_spaces(ref_out[2]),
-                "root": ref_out[3], "attractors": parse_attractors(ref_out[4]), "verdicts": verdicts, "global_verdict": global_verdict, "pipe_results": pipe_results if case.get("pipe") else [], "sym_results": sym_results, "sym_calls": len(sym_index), "n": n, "error": None}
+                "root": ref_out[3], "attractors": parse_attractors(ref_out[4]), "verdicts": verdicts, "global_verdict": global_verdict, "pipe_results": pipe_results if case.get("pipe") else [], "sym_results": sym_results, "sym_calls": len(sym_index), "n": n, "error": None, "skiprule_model": skiprule_model}
     except CaseTimeout:
         raise
     except Exception as e:  # harness error: reported, never silently dropped
